@@ -16,7 +16,7 @@ pub const INFO: CheckInfo = CheckInfo {
     rule: "bounded exhaustive enumeration of (dictionary length lattice around 0, MIN_MATCH, window-262, window, 2*window, 3*window) x windowBits x level x memLevel x wrapper {raw, zlib} x input {related to the dictionary tail, unrelated} x schedule {one call, sync flush at n/2, small rooms}; plus raw streams with a second dictionary installed between blocks. For every history: deflateGetDictionary / inflateGetDictionary after EVERY call are compared with the history model R7; the zlib header must carry FDICT and DICTID = Adler-32(dict) (R1); inflate must answer NEED_DICT with that id, accept exactly the right dictionary, reject a modified one with DATA_ERROR, refuse a dictionary offered too early, and then round-trip; the stream is also decoded by the strict reference decoder with the dictionary as history. distinct_nontrivial = distinct (compressed bytes, dictionary lengths returned) outcomes.",
     assumptions: &["R7 (history = dict ‖ data) and R1/R2/R3 are trusted", "deflateGetDictionary may legally return up to 262 bytes less than a full window right after a slide (zlib documents 258); the oracle demands a suffix of the history of length in [min(|history|, window-262), window]"],
     bound_quick: "windowBits {9,15}, 16/5 dictionary lengths, 6 levels, memLevel {1,8}, 2 wrappers, 2 inputs, 3 schedules",
-    bound_thorough: "windowBits {9,10,12,15}, 16 dictionary lengths, 10 levels, memLevel {1,8}, 2 wrappers, 2 inputs, 3 schedules",
+    bound_thorough: "windowBits 9..15, 16 dictionary lengths, 10 levels, memLevel {1,2,8,9}, 2 wrappers, 2 inputs, 3 schedules; Rust API: 3 windows x 7 dictionary lengths x 10 levels x 2 wrappers",
 };
 
 struct Hist {
@@ -404,7 +404,79 @@ fn between_blocks(c: &mut Case, cfg: &DCfg, d1: &[u8], d2: &[u8], p1: &[u8], p2:
     }
 }
 
+/// the same protocol through the safe wrappers: Deflate::set_dictionary returns the dictionary's Adler-32, the zlib
+/// stream announces it, Inflate::decompress answers NeedDict with that id, a wrong dictionary is refused, the right
+/// one accepted, and the data comes back; raw streams round-trip with the dictionary installed on both sides
+fn rust_api(ctx: &mut Ctx) {
+    let quick = ctx.quick();
+    for wb in [9u8, 12, 15] {
+        let w = 1usize << wb;
+        for dl in [1usize, 3, 258, w - 262, w, w + 1, 2 * w + 1] {
+            let dict = text(41, dl);
+            let mut input = dict[dict.len().saturating_sub(300)..].to_vec();
+            input.extend(text(8, 900));
+            input.extend_from_slice(&dict[..dict.len().min(40)]);
+            for level in if quick { vec![0, 1, 6, 9] } else { (0..=9).collect::<Vec<i32>>() } {
+                for hdr in [true, false] {
+                    ctx.case(
+                        "rust-api-dict",
+                        || format!("Deflate::new({level}, zlib_header={hdr}, {wb}) ; set_dictionary(text({dl})) ; compress({} bytes, Finish) ; Inflate: NeedDict / wrong dictionary / right dictionary / data", input.len()),
+                        |c| {
+                            c.exec();
+                            let want_id = cksum::adler32(1, &dict);
+                            let mut d = zlib_rs::Deflate::new(level, hdr, wb);
+                            let id = d.set_dictionary(&dict).map_err(|e| format!("Deflate::set_dictionary: {e:?}"))?;
+                            if hdr && id != want_id {
+                                return Err(format!("Deflate::set_dictionary returned {id:#x}, the dictionary's Adler-32 is {want_id:#x}"));
+                            }
+                            let mut z = vec![0u8; input.len() * 2 + 200];
+                            let r = d.compress(&input, &mut z, zlib_rs::DeflateFlush::Finish);
+                            if r != Ok(zlib_rs::Status::StreamEnd) {
+                                return Err(format!("Deflate::compress: {r:?}"));
+                            }
+                            z.truncate(d.total_out() as usize);
+                            if hdr && (z[1] & 0x20 == 0 || z[2..6] != want_id.to_be_bytes()) {
+                                return Err(format!("the zlib header does not announce the dictionary: {}", hex(&z[..6])));
+                            }
+                            c.exec();
+                            let mut out = vec![0u8; input.len() + 64];
+                            let mut i = zlib_rs::Inflate::new(hdr, wb);
+                            let mut pos = 0usize;
+                            if hdr {
+                                match i.decompress(&z, &mut out, zlib_rs::InflateFlush::NoFlush) {
+                                    Err(zlib_rs::InflateError::NeedDict { dict_id }) if dict_id == want_id => {}
+                                    other => return Err(format!("Inflate::decompress on a stream with FDICT: {other:?}, expected NeedDict {{ dict_id: {want_id:#x} }}")),
+                                }
+                                pos = i.total_in() as usize;
+                                let mut wrong = dict.clone();
+                                wrong[0] ^= 1;
+                                if i.set_dictionary(&wrong) != Err(zlib_rs::InflateError::DataError) {
+                                    return Err("Inflate::set_dictionary accepted a dictionary with another Adler-32".into());
+                                }
+                                if i.set_dictionary(&dict) != Ok(want_id) {
+                                    return Err("Inflate::set_dictionary refused the right dictionary or returned another id".into());
+                                }
+                            } else {
+                                i.set_dictionary(&dict).map_err(|e| format!("Inflate::set_dictionary on a raw stream: {e:?}"))?;
+                            }
+                            let r = i.decompress(&z[pos..], &mut out, zlib_rs::InflateFlush::Finish);
+                            if r != Ok(zlib_rs::Status::StreamEnd) || out[..i.total_out() as usize] != input[..] {
+                                return Err(format!("after the dictionary was installed: {r:?}, {} of {} bytes reproduced", i.total_out(), input.len()));
+                            }
+                            c.outcome(hash_bytes(&z));
+                            c.nontrivial();
+                            c.validated();
+                            Ok(())
+                        },
+                    );
+                }
+            }
+        }
+    }
+}
+
 pub fn run(ctx: &mut Ctx) {
+    rust_api(ctx);
     let env = Env::new();
     let rows = hfam::dict_rows(ctx.quick());
     for row in &rows {
